@@ -28,6 +28,7 @@
 From Coq Require Import NArith List Bool Permutation.
 From DvcData Require Import Base.Val Base.MD5 Base.Json Model.Listing Model.HashSched.
 From DvcData Require Import Proofs.ListingSort Proofs.ListingProofs Proofs.JsonProofs Proofs.ListingInj Proofs.HashSchedProofs.
+From DvcData Require Import Model.ListingHist Proofs.ListingHistProofs.
 Import ListNotations.
 Open Scope N_scope.
 
@@ -142,6 +143,31 @@ Theorem C03_subtree_any_order : forall p sub others t l,
   digest (tree_of_list (map (reroot (length p)) l)) = digest sub.
 Proof. exact subtree_digest_any_order. Qed.
 Print Assumptions C03_subtree_any_order.
+
+(* ---- at every point of the life of one Tree object (Model/ListingHist.v) ----
+   tree.py answers get_obj / filter / iteritems from a cached pygtrie that add() must drop; the
+   model has no cache, so these theorems say what the cache has to preserve: an answer is a
+   function of the Adds that precede it, whatever queries were interleaved. *)
+Theorem C03_history_query : forall ops q t,
+  fst (run_hist (ops ++ [q]) t) =
+  fst (run_hist ops t) ++ match answer q (state_after ops t) with Some a => [a] | None => [] end.
+Proof. exact hist_query. Qed.
+Print Assumptions C03_history_query.
+
+Theorem C03_history_queries_irrelevant : forall ops ops' q t,
+  adds_of ops = adds_of ops' ->
+  state_after ops t = state_after ops' t /\
+  answer q (state_after ops t) = answer q (state_after ops' t).
+Proof. exact hist_queries_irrelevant. Qed.
+Print Assumptions C03_history_queries_irrelevant.
+
+Theorem C03_history_subtree : forall ops t0 p sub others,
+  KeysOk sub -> NoDupKeys sub -> sub <> [] ->
+  (forall e, In e others -> is_prefix p (e_key e) = false) ->
+  Permutation (state_after ops t0) (map (prepend p) sub ++ others) ->
+  fst (run_hist (ops ++ [HGetObj p]) t0) = fst (run_hist ops t0) ++ [AObj (Some (digest sub))].
+Proof. exact hist_get_obj_subtree. Qed.
+Print Assumptions C03_history_subtree.
 
 (* ---- threads, threshold, completion order, cache temperature ---- *)
 Theorem C03_schedule_files : forall c done fs,
